@@ -218,7 +218,8 @@ fn umad_jobs(seed: u64, jobs: &mut Vec<Job>) {
                     for _ in 0..muts {
                         if plushy {
                             let u = mk(ctor, a, empty_rate, d, NewPushGene);
-                            let parent = Plushy::new((0..len as i64).map(|i| PushGene::Instruction(PushInstruction::push_int(i))));
+                            // close markers at the front, inside and at the end are genes like any other
+                            let parent = Plushy::new((0..len as i64).map(|i| if i == 0 || i == 3 || i == len as i64 - 1 { PushGene::Close } else { PushGene::Instruction(PushInstruction::push_int(i)) }));
                             let Ok(c) = u.mutate(parent, &mut rng);
                             for g in c.get_genes() {
                                 size += 1;
